@@ -123,4 +123,15 @@ def run(ctx):
 
 
 def search(ctx, broken):
+    """failing-input search when an obligation breaks: a history on which the real parser's meaning depends on earlier
+    statements (typical cause: a new closure variable or parser field, flagged by C18_no_other_closure_state), else the
+    grammar-level search of C17"""
+    try:
+        srows = c17.hparse(["-mode", "state", "-n", "3000", "-seed", str(ctx.seed), "-exhaust", "1"])
+        for r in srows:
+            if not r["same"]:
+                return {"kind": "statement-meaning-depends-on-history" if r["kind"] == "state" else "statement-meaning-not-a-function-of-its-text",
+                        "case": r}
+    except Exception:
+        pass
     return c17.search(ctx, broken)
